@@ -53,6 +53,10 @@ CHECKS = {
             "unit selection for symbolic byte counts, the h/m/s split and exact percentages, checked by TLC; every terminal case is executed on "
             "the real decorators (samples through a real bar and 0/1/3 wrappers into a recording moving average; printed numbers parsed back and "
             "compared in exact arithmetic; NaN/Inf/panic and reported-width mismatches are violations; freeze after completion on a fake clock).", "8 C20"),
+    "C04": ("model_checking", "TermDesign.tla: every short sequence of frames (bars added/removed/popped, extender rows, text, more rows than the "
+            "terminal is high) produced by the flush/cwriter protocol on a VT100-subset terminal with scrollback; invariant InPlace (everything "
+            "reachable on the terminal = persisted lines ++ current rows).  TermTrace.tla runs the frames of real executions (buffer; real pty "
+            "of height 2-5) through the same emulator.  Obs.tla rules output-before-delay-end, output-without-refresh, row-too-wide.", "8 C04"),
 }
 
 TECH0 = {p: "TLA+ trace validation (TLC on Obs.tla) of gate-scheduled executions of the real library; MPBCore.tla model checking"
@@ -63,6 +67,8 @@ TECH["C07"] = "TLC model checking of Fill.tla (liveness + invariants) and Row.tl
 TECH["C08"] = "TLC evaluation of FillArith.tla over a grid; table replay at int64 scales; exact-arithmetic oracle on random int64 inputs"
 TECH["C19"] = "TLC enumeration of Proxy.tla (reference machine + invariants); every terminal case replayed on the real proxies"
 TECH["C20"] = "TLC checking of Decor.tla (conservation of sample time, unit selection, h/m/s split); every case replayed on the real decorators and formatter types"
+TECH["C04"] = "TLC model checking of TermDesign.tla (frame protocol on an emulated terminal); TLC trace validation (TermTrace.tla) of buffer and real-pty output; Obs.tla rules for delay / no-refresh"
+TECH["C18"] = "TLA+ trace validation (Obs.tla, TermTrace.tla) of gate-scheduled and pty executions; TLC model checking of TermDesign.tla"
 TECH["C09"] = "TLC model checking of BarState.tla + replay of its TLC-emitted transition relation on the real Bar"
 TECH["C11"] = "TLC model checking of BarState.tla + replay of its transition relation; TLA+ trace validation (Obs.tla) of gate-scheduled executions"
 
